@@ -38,6 +38,8 @@ EXTRA_WRONG = {
     "list:number": [("nonfinite-item", faults.LIST([faults.INT(1), faults.WORD("nan")]), [1, "nan"]), ("inf-item", faults.LIST([faults.WORD("inf")]), ["inf"])],
     "string": [NESTED, NESTED2, ("list", faults.LIST([faults.INT(1), faults.WORD("a")]), [1, "a"]), ("tuple", faults.TUPLE("a", faults.WORD("b")), {"a": "b"}), ("number", faults.INT(7), 7)],
     "path": [NESTED, NESTED2, ("through-a-file", faults.QSTR("in.csv/a"), "in.csv/a"), ("file-with-a-slash", faults.QSTR("in.csv/"), "in.csv/"), ("through-a-file-deep", faults.QSTR("in.csv/x/y.csv"), "in.csv/x/y.csv"),
+             ("missing-folder-with-braces", faults.QSTR("run{1}/result.csv"), "run{1}/result.csv"), ("missing-folder-with-empty-braces", faults.QSTR("out{}/r{x}.csv"), "out{}/r{x}.csv"),
+             ("missing-folder-with-percent", faults.QSTR("100%s/%(x)d.csv"), "100%s/%(x)d.csv"), ("missing-folder-with-one-brace", faults.QSTR("a{b/c}.csv"), "a{b/c}.csv"),
              ("list", faults.LIST([faults.WORD("a")]), ["a"]), ("tuple", faults.TUPLE("a", faults.WORD("b")), {"a": "b"}), ("number", faults.INT(7), 7), ("float", faults.FLOAT(1.5), 1.5)],
 }
 CSV_FAULTS = ["empty", "header-only", "ragged-short", "ragged-long", "non-numeric", "missing-column", "dup-headers", "quoted-newline", "nul-byte",
@@ -244,7 +246,7 @@ def _cli_subprocess(ctx, path, tag, detail):
             ctx.count("cli_subprocess_runs")
             first = [ln for ln in r.stderr.splitlines() if ln.startswith("Problem")][:1]
             first2 = [ln for ln in r2[2].splitlines() if ln.startswith("Problem")][:1]
-            if r2[0] == 0 or "Traceback (most recent call last)" in r2[2] and "Problem: An unexpected error occurred" not in r2[2] or (first and first2 and first[0].split(":")[0:2] != first2[0].split(":")[0:2]):
+            if r2[0] == 0 or "Traceback (most recent call last)" in r2[2] and "Problem: An unexpected error occurred" not in r2[2] or bool(first) != bool(first2):
                 ctx.fail("%s:cli-process-started-in-the-directory-of-the-file-behaves-differently" % tag.split(":")[0], dict(detail, invoked_as=how, exit=r2[0], stderr=r2[2][-400:], with_full_path=r.stderr[-200:]))
                 return
     if r.returncode == 0:
